@@ -106,13 +106,31 @@ fn sample_ops(i: usize) -> Vec<Operation> {
     ]
 }
 
-fn resources_dict(b: &mut Builder, tag: &str) -> Dictionary {
+/// style 0: Font and XObject as direct dictionaries; 1: plus an ExtGState dictionary; 2: XObject and ExtGState held
+/// behind references (as most producers write them)
+fn resources_dict(b: &mut Builder, tag: &str, style: u8) -> Dictionary {
     let font = b.add(dictionary! { "Type" => "Font", "Subtype" => "Type1", "BaseFont" => "Courier" });
     let xo = b.add_stream(dictionary! { "Type" => "XObject", "Subtype" => "Form" }, format!("% form of {}\n", tag).into_bytes(), false);
-    dictionary! {
+    let mut d = dictionary! {
         "Font" => dictionary! { "F1" => font, format!("F{}", tag) => font },
-        "XObject" => dictionary! { format!("X{}", tag) => xo },
+    };
+    let xobjects = dictionary! { format!("X{}", tag) => xo };
+    if style % 3 == 0 {
+        d.set("XObject", xobjects);
+        return d;
     }
+    let gs = b.add(dictionary! { "Type" => "ExtGState", "LW" => 2 });
+    let states = dictionary! { format!("G{}", tag) => gs };
+    if style % 3 == 1 {
+        d.set("XObject", xobjects);
+        d.set("ExtGState", states);
+    } else {
+        let x = b.add(xobjects);
+        let s = b.add(states);
+        d.set("XObject", x);
+        d.set("ExtGState", s);
+    }
+    d
 }
 
 pub fn build(start: &Start) -> Document {
@@ -159,11 +177,11 @@ pub fn build(start: &Start) -> Document {
             match spec.resources % 3 {
                 0 => {}
                 1 => {
-                    let r = resources_dict(&mut b, &format!("p{}", page_no));
+                    let r = resources_dict(&mut b, &format!("p{}", page_no), spec.resources / 3);
                     page.set("Resources", r);
                 }
                 _ => {
-                    let r = resources_dict(&mut b, &format!("q{}", page_no));
+                    let r = resources_dict(&mut b, &format!("q{}", page_no), spec.resources / 3);
                     let rid = b.add(r);
                     page.set("Resources", rid);
                 }
@@ -185,11 +203,11 @@ pub fn build(start: &Start) -> Document {
         match gr % 3 {
             0 => {}
             1 => {
-                let r = resources_dict(&mut b, &format!("g{}", gi));
+                let r = resources_dict(&mut b, &format!("g{}", gi), gr / 3);
                 node.set("Resources", r);
             }
             _ => {
-                let r = resources_dict(&mut b, &format!("h{}", gi));
+                let r = resources_dict(&mut b, &format!("h{}", gi), gr / 3);
                 let rid = b.add(r);
                 node.set("Resources", rid);
             }
@@ -204,11 +222,11 @@ pub fn build(start: &Start) -> Document {
     match start.root_resources % 3 {
         0 => {}
         1 => {
-            let r = resources_dict(&mut b, "root");
+            let r = resources_dict(&mut b, "root", start.root_resources / 3);
             root.set("Resources", r);
         }
         _ => {
-            let r = resources_dict(&mut b, "rootref");
+            let r = resources_dict(&mut b, "rootref", start.root_resources / 3);
             let rid = b.add(r);
             root.set("Resources", rid);
         }
@@ -334,6 +352,19 @@ fn walk_pages(doc: &Document) -> (Vec<ObjectId>, Vec<(ObjectId, Option<i64>, i64
 
 /// ISO 32000-1 7.7.3.4: the resource dictionary in effect is the nearest one up the Parent chain (not merged).
 /// Returned as category -> name -> value (dictionaries only; other categories by equality of the whole value).
+/// the resource dictionary in effect for a page: its own, or the nearest one up the Parent chain
+fn nearest_resources(doc: &Document, page: ObjectId) -> Option<&Dictionary> {
+    let mut cur = Some(page);
+    for _ in 0..64 {
+        let d = doc.objects.get(&cur?).and_then(dict_of)?;
+        if let Some(res) = d.get(b"Resources").ok().and_then(|r| deref(doc, r)).and_then(dict_of) {
+            return Some(res);
+        }
+        cur = d.get(b"Parent").ok().and_then(|p| p.as_reference().ok());
+    }
+    None
+}
+
 fn effective_resources(doc: &Document, page: ObjectId) -> BTreeMap<(Vec<u8>, Vec<u8>), Object> {
     let mut out = BTreeMap::new();
     let mut cur = Some(page);
@@ -543,7 +574,11 @@ fn frame_t(
                 if let Err(d) = r {
                     // an object that the step made unreachable may also simply have been left as it was
                     let untouched = !reach_after.contains(nid) && same_object(&rename(bo, &map), &after.objects[nid], &ignore, decoded_streams, "").is_ok();
-                    if !untouched {
+                    // … or treated for some of the step's deletions only (it dropped out of reach between two of them):
+                    // applying the step's effect to what is there now must give the fully treated object
+                    let partly = !reach_after.contains(nid)
+                        && expect(*oid, &after.objects[nid]).map(|x| same_object(&e, &rename(&x, &map), &ignore, decoded_streams, "").is_ok()).unwrap_or(false);
+                    if !untouched && !partly {
                         return Err(Violation::new(kind, format!("{}: {}", step, d)));
                     }
                 }
@@ -882,9 +917,16 @@ pub fn check(case: &Case) -> Verdict {
                     Op::AddXObject { .. } => no_panic("add_xobject", || st.doc.add_xobject(pid, nm.clone(), target))?,
                     _ => no_panic("add_graphics_state", || st.doc.add_graphics_state(pid, nm.clone(), target))?,
                 };
-                r.map_err(|e| viol!("resource-lost", "{}: adding a resource to a well-formed page fails: {:?}", step, e))?;
-                let res_after = effective_resources(&st.doc, pid);
                 let cat: &[u8] = if matches!(op, Op::AddXObject { .. }) { b"XObject" } else { b"ExtGState" };
+                // the page's own resources hold the category behind a reference: the call may refuse (an error, nothing
+                // changed) — what it may never do is succeed and lose what was there
+                let cat_indirect = nearest_resources(&before2, pid).map(|res| matches!(res.get(cat), Ok(Object::Reference(_)))).unwrap_or(false);
+                let refused = r.is_err() && cat_indirect;
+                if !refused {
+                    r.map_err(|e| viol!("resource-lost", "{}: adding a resource to a well-formed page fails: {:?}", step, e))?;
+                }
+                rep.label_if(cat_indirect, "resource-category-behind-a-reference");
+                let res_after = effective_resources(&st.doc, pid);
                 for (k, v) in &res_before {
                     if k.0 == cat && k.1 == nm.as_bytes() {
                         continue; // the entry being (re)defined
@@ -897,7 +939,7 @@ pub fn check(case: &Case) -> Verdict {
                         ));
                     }
                 }
-                if res_after.get(&(cat.to_vec(), nm.clone().into_bytes())) != Some(&Object::Reference(target)) {
+                if !refused && res_after.get(&(cat.to_vec(), nm.clone().into_bytes())) != Some(&Object::Reference(target)) {
                     return Err(viol!("resource-lost", "{}: the added resource /{} /{} is not in effect for the page", step, String::from_utf8_lossy(cat), nm));
                 }
                 // other pages keep what they had
@@ -909,6 +951,9 @@ pub fn check(case: &Case) -> Verdict {
                     let b = effective_resources(&before2, q);
                     let a = effective_resources(&st.doc, q);
                     for (k, v) in &b {
+                        if k.0 == cat && k.1 == nm.as_bytes() {
+                            continue; // the entry being (re)defined, seen through a category dictionary the pages share
+                        }
                         if a.get(k) != Some(v) {
                             return Err(viol!("resource-lost", "{}: adding a resource to page {:?} took /{} /{} away from page {:?}", step, pid, String::from_utf8_lossy(&k.0), String::from_utf8_lossy(&k.1), q));
                         }
@@ -1012,8 +1057,8 @@ fn op_name(op: &Op) -> &'static str {
 }
 
 pub fn strategy(switches: Switches) -> BoxedStrategy<Case> {
-    let page = (0u8..4, 0u8..3, 0u8..3, any::<bool>(), any::<bool>()).prop_map(|(contents, resources, annots, encoded_by_lopdf, compressed)| PageSpec { contents, resources, annots, encoded_by_lopdf, compressed });
-    let start = (vec(vec(page, 0..4), 1..4), 0u8..3, vec(0u8..3, 0..3), vec((vec(any::<u16>(), 0..5), any::<bool>(), any::<bool>()), 0..5), any::<bool>(), any::<bool>())
+    let page = (0u8..4, 0u8..9, 0u8..3, any::<bool>(), any::<bool>()).prop_map(|(contents, resources, annots, encoded_by_lopdf, compressed)| PageSpec { contents, resources, annots, encoded_by_lopdf, compressed });
+    let start = (vec(vec(page, 0..4), 1..4), 0u8..9, vec(0u8..9, 0..3), vec((vec(any::<u16>(), 0..5), any::<bool>(), any::<bool>()), 0..5), any::<bool>(), any::<bool>())
         .prop_map(|(groups, root_resources, group_resources, extras, reload, xref_stream)| Start { groups, root_resources, group_resources, extras, reload, xref_stream });
     let mut oo = ObjOpts::default();
     oo.allow_refs = false;
